@@ -4,6 +4,8 @@ package main
 
 import (
 	"encoding/json"
+	"mltwist/internal/elf"
+	"mltwist/internal/parser"
 	"mltwist/internal/riscv"
 	"mltwist/pkg/expr"
 	"mltwist/pkg/model"
@@ -20,7 +22,8 @@ type rvCase struct {
 	Addr    []int           `json:"addr"`    // 8 bytes little endian
 	Bytes   []int           `json:"bytes"`
 	States  json.RawMessage `json:"states,omitempty"`
-	Lo      int             `json:"lo"` // sweep: words with bits 24..31 == Lo
+	Lo      int             `json:"lo"`
+	Image   []emuBlock      `json:"image"` // sweep: words with bits 24..31 == Lo
 }
 
 type rvSum struct {
@@ -30,7 +33,19 @@ type rvSum struct {
 	Or    []int  `json:"or"`
 }
 
+type codeIns struct {
+	Off    int             `json:"off"`
+	Bytes  []int           `json:"bytes"`
+	Nodes  []Node          `json:"nodes"`
+	Effs   []Eff           `json:"effs"`
+	Keys   []string        `json:"keys"`
+	Name   string          `json:"lname"`
+	States json.RawMessage `json:"states,omitempty"`
+	CsrKey string          `json:"csrkey"`
+}
+
 type rvEvent struct {
+	Ins   []codeIns `json:"ins"`
 	Names []rvSum `json:"names"`
 	rvCase
 	Err     bool     `json:"err"`
@@ -145,7 +160,43 @@ func init() {
 		if c.Addr == nil {
 			c.Addr = []int{}
 		}
-		ev := rvEvent{Names: []rvSum{}, rvCase: c, Nodes: []Node{}, Effs: []Eff{}, Toks: []string{}, Keys: []string{}, MemKeys: []string{}}
+		ev := rvEvent{Ins: []codeIns{}, Names: []rvSum{}, rvCase: c, Nodes: []Node{}, Effs: []Eff{}, Toks: []string{}, Keys: []string{}, MemKeys: []string{}}
+		if c.Image == nil {
+			c.Image = []emuBlock{}
+			ev.Image = c.Image
+		}
+		if c.Op == "codeparse" {
+			ev.Panic = guard(func() {
+				base := baseOf(c.Addr)
+				addrs, bss := []model.Addr{}, [][]byte{}
+				for _, b := range c.Image {
+					addrs = append(addrs, model.Addr(base+uint64(b.Off)))
+					bss = append(bss, bytesOf(b.Bytes))
+				}
+				mem, err := elf.VerifMemory(addrs, bss)
+				if err != nil {
+					panic("harness: overlapping code blocks")
+				}
+				ins, err := parser.Parse(mem, rvParser(c.Variant, c.Exts))
+				if err != nil {
+					ev.Err = true
+					return
+				}
+				for _, in := range ins {
+					d := NewDag()
+					effs := d.AddEffects(in.Effects)
+					nodes := d.Nodes
+					if nodes == nil {
+						nodes = []Node{}
+					}
+					keys, _ := keysOf(nodes, effs)
+					ev.Ins = append(ev.Ins, codeIns{Off: int(uint64(in.Addr) - base), Bytes: ints(in.Bytes), Nodes: nodes, Effs: effs,
+						Keys: keys, Name: strings.ToLower(in.Details.Name())})
+				}
+			})
+			emit(ev)
+			return
+		}
 		if c.Op == "sweep" {
 			// all 2^24 words whose top byte is c.Lo, through the real Parse
 			ev.Panic = guard(func() {
